@@ -61,6 +61,31 @@ CHECKS = {
    technique="stateful property-based testing: generated lending sequences with a shadow list of (address, id, contents) and a drop registry; long-chain and multi-thread cases; crash-isolated worker with a small stack to expose recursive drops",
    text="Phases of lending operations (make_ref of several types, answers using make_ref, returns()-configured borrows, borrows through the delegation helper, bursts) over original and clones, closed by make_mut / a make_mut-answered &mut return, then 2-8 threads lending through a shared &Unimock, then teardown: every reference held is re-read after every operation, addresses of make_ref values are pairwise distinct, nothing is dropped early, everything is dropped exactly once. Chains of 5k-51k values are dropped on a 256 KiB stack.",
    note="references are held in safe Rust; concurrent interleavings inside once_cell are real-thread stress only (not scheduled)"),
+
+ "C05": dict(engine="E2 program generation (harness/progen)", cat="exploration", ref="§4 C05",
+   technique="grammar-based program generation (proptest strategy over trait ASTs) -> generated crate -> observations vs generator-side expectation, manual shrinking across the compile boundary",
+   text="Hundreds (quick) to ~16k (thorough) generated #[unimock] traits (7 receiver kinds x 0-5 parameters of 15 kinds with adjacent parameters often sharing a type x 6 return kinds x sync/async fn/impl Future x module/flattened/hidden api x method position, a twin method of identical signature next to it) are compiled against /repo and executed: a logging matcher and a logging, mutating, injective answer function must have seen exactly the caller's arguments in declaration order, the result and the caller's &mut variables must be what the answer produced, futures must not evaluate before / without a poll.",
+   note="shapes rustc rejects are outside the property's domain (counted in evidence; > 5% rejected = exit 2); generated values' Debug strings are the channel of observation"),
+ "C06": dict(engine="E2 program generation (harness/progen)", cat="exploration", ref="§4 C06",
+   technique="grammar-based generation of matching! patterns, exhaustive evaluation over a finite argument domain, oracle = own pattern interpreter cross-checked by a native Rust match in the generated program",
+   text="Each generated pattern (literals, ranges, wildcards, bindings, @-bindings, or-patterns, Option/tuple/struct/enum patterns, slice patterns with rest, string literals against &str/String/newtype, eq!/ne!, 1-3 alternatives, guards) is evaluated by the real mock on every tuple of the product domain (<= 300) in unordered (diagnostics off) and ordered (diagnostics on) mode; both truth tables must equal the interpreter's. The forms shown verbatim in the documentation must compile (a rejection there is a violation).",
+   note="type-directed grammar: only patterns the macro accepts for the argument type are generated (rejections counted); rustc's match semantics trusted for the interpreter cross-check"),
+ "C15": dict(engine="E2 program generation (harness/progen)", cat="exploration", ref="§4 C15",
+   technique="grammar-based generation of default bodies (expression grammar) and mixed direct/delegated histories; oracle = generator-side inlining of the body",
+   text="Generated traits whose provided method calls 0-3 required methods with argument-derived values, for 8 receiver situations (&self, &mut self, self, Rc/Arc shared and sole owner, Pin<&mut Self>), required methods unordered with exact counts or as one ordered sequence, histories mixing direct and delegated calls, applies_default_impl() clauses: the arguments seen by the required patterns, every result and the final verification must equal what inlining the body predicts.",
+   note="clause lists of run-time length use the DynClause hook; rejected shapes counted"),
+ "C16": dict(engine="E2 program generation (harness/progen)", cat="exploration", ref="§4 C16",
+   technique="grammar-based generation of unmock_with registrations (path / path(permuted params) / _) per method position, recording real functions, recursion through the mock",
+   text="Generated traits of 1-4 methods with individual registrations, &self/&mut self, sync/async/impl Future, resolved to the real implementation through partial fall-through (unmentioned / unmatched) or applies_unmocked(): exactly one invocation of the right function with self and the arguments in registered order, result returned unchanged, panic naming Trait::method when nothing is registered; recursive real functions (depth 0-6) call back into the same mock whose counted base-case pattern must verify.",
+   note="rejected shapes counted"),
+ "C17": dict(engine="E2 program generation (harness/progen)", cat="exploration", ref="§4 C17",
+   technique="grammar-based generation of return types and values, round-trip oracle (Debug rendering computed independently by the generator)",
+   text="Return types from the accepted families (borrowed leaves, Option/Result of borrows, Option/Poll wrappers to depth 3, Vec<&T>, Vec<Option<&T>>, 1-4-tuples mixing owned / borrowed / shallow containers, all-owned composites) with generated variants and lengths 0-4: returns(v) through next_call, each_call (3 calls, earlier borrows read after later calls), some_call.n_times(2) must reproduce v; on the single-use path a second request panics iff the value contains an owned leaf.",
+   note="types outside the accepted families are not generated (calibrated on the unchanged tree; rejections counted)"),
+ "C19": dict(engine="E2 program generation (harness/progen)", cat="exploration", ref="§4 C19",
+   technique="grammar-based generation of method shapes x patterns x failing tuples; message-grammar oracle built from generator-known Debug strings, printed line numbers and the C06 interpreter",
+   text="For each generated pattern and shape (incl. non-Debug, reference-depth, &mut and generic parameters) every mock-induced error kind is triggered on a fresh mock; the message must render the call as Trait::method(args) from the generator's own Debug strings ('?' for non-Debug), name the pattern by location (file and the line the generator printed) and source text, and for guard-free single-alternative patterns list exactly the positions the interpreter rejects, each with the actual value.",
+   note="only the parts named by the property are compared; ANSI codes stripped; pattern text compared in the documented short rendering with a literal-atoms fallback"),
 }
 
 NOT_YET = {
@@ -102,6 +127,8 @@ def main():
              "kind_free_text": "in-process interpreter from generated scenario data to real clauses (public builder API) + reference model; proptest generators with shrinking; replay files are scenarios"},
             {"name": "E1-lifecycle/value-chain/faults", "path": "harness/rt/src/props/{c08,c09,c11,c12,c13}.rs", "serves_properties": ["C08", "C09", "C11", "C12", "C13"],
              "kind_free_text": "stateful generators executed in crash-isolated worker processes (vcore::worker) or fresh child processes; lifecycle / shadow-list / conservation oracles"},
+            {"name": "E2", "path": "harness/progen", "serves_properties": ["C05", "C06", "C15", "C16", "C17", "C19"],
+             "kind_free_text": "proptest strategies over program ASTs -> generated crate under harness/work (path-depends on /repo) -> cargo build -> observation lines -> comparison with generator-side expectations; manual ValueTree shrinking, one rebuild per step"},
             {"name": "E3", "path": "harness/rt/src/sched.rs", "serves_properties": ["C10", "C12", "C08"],
              "kind_free_text": "token-passing scheduler over the yield hook; exhaustive DFS over schedules or proptest-generated schedules"},
         ],
